@@ -20,6 +20,7 @@ pub fn public_strategy() -> BoxedStrategy<Req> {
         6 => props::c03::public_strategy(),
         10 => props::c04::single_strategy(tables),
         3 => props::c04::msm_strategy(vec![0, 1, 2, 3, 8, 33], false),
+        3 => props::c04::chain_strategy(),
         6 => props::c06::strategy(false, tables),
         8 => props::c07::strategy(),
         5 => props::c08::strategy(),
